@@ -41,6 +41,11 @@ impl Pool {
     pub fn searching(seed: u64) -> Pool {
         Pool { vals: Default::default(), underflow: false, search: Some(seed | 1), trace: Vec::new(), draws: 0 }
     }
+    /// as `searching`, but the first draws are served from `prefix`
+    #[cfg(not(kani))]
+    pub fn searching_from(seed: u64, prefix: Vec<Vec<u8>>) -> Pool {
+        Pool { vals: prefix.into(), underflow: false, search: Some(seed | 1), trace: Vec::new(), draws: 0 }
+    }
     #[cfg(not(kani))]
     fn rnd(&mut self) -> u64 {
         let mut x = self.search.unwrap();
@@ -164,6 +169,58 @@ pub mod native {
         std::panic::panic_any(AssumeFailed);
     }
     pub struct AssumeFailed;
+
+    /// Materialise a concrete input that fails one of the `wanted` obligations natively (the solver
+    /// has already reported them failed). Draws are generated; when an assumption fails, everything
+    /// drawn before the last draw(s) is kept and only the tail is re-drawn (the scenarios are written
+    /// generatively: an `assume` constrains the draws just before it), so valid states are reached
+    /// in a few retries instead of by rejection of whole runs.
+    pub fn search(f: fn(&mut super::Pool), seed: u64, budget: u64, wanted: &[String], reset: fn()) -> Option<(Vec<Vec<u8>>, Vec<String>)> {
+        let mut prefix: Vec<Vec<u8>> = Vec::new();
+        let mut stuck: u32 = 0;
+        let mut x = seed | 1;
+        for i in 0..budget {
+            self::reset();
+            reset();
+            let s = seed.wrapping_mul(0x9E3779B97F4A7C15).wrapping_add(i.wrapping_mul(0xD1B54A32D192ED03));
+            let mut pool = super::Pool::searching_from(s, prefix.clone());
+            let r = std::panic::catch_unwind(std::panic::AssertUnwindSafe(|| f(&mut pool)));
+            let assume_failed = ASSUME_FAILED.with(|x| *x.borrow());
+            x ^= x << 13;
+            x ^= x >> 7;
+            x ^= x << 17;
+            if assume_failed {
+                // keep what was drawn before the offending tail; back off further when stuck
+                stuck += 1;
+                let drop = 1 + (stuck / 40) as usize + if stuck % 7 == 0 { (x % 4) as usize } else { 0 };
+                let d = pool.trace.len();
+                prefix = pool.trace[..d.saturating_sub(drop)].to_vec();
+                if stuck > 2000 {
+                    prefix.clear();
+                    stuck = 0;
+                }
+                continue;
+            }
+            stuck = 0;
+            if r.is_err() {
+                prefix.clear();
+                continue;
+            }
+            let fails: Vec<String> = FAILS.with(|x| x.borrow().iter().map(|s| s.to_string()).collect());
+            if fails.iter().any(|s| wanted.iter().any(|w| w == s)) {
+                return Some((pool.trace.clone(), fails));
+            }
+            // a valid run that does not fail: keep a random part of it (the state), re-draw the rest
+            let d = pool.trace.len();
+            let keep = match x % 4 {
+                0 => 0,
+                1 => d.saturating_sub(1 + (x >> 8) as usize % 4),
+                _ => (x >> 8) as usize % (d + 1),
+            };
+            prefix = pool.trace[..keep].to_vec();
+        }
+        None
+    }
     pub fn reset() {
         FAILS.with(|f| f.borrow_mut().clear());
         COVERS.with(|f| f.borrow_mut().clear());
